@@ -1618,7 +1618,7 @@ fn main() {
         case_strategy,
         |c: &Case| run_case(c, &known),
     );
-    let n = check.cases(60, 900);
+    let n = check.cases(160, 2400);
     check.group(
         "thread_big_join",
         "thread stream, multi-MiB message frames (0.5-6 MiB) appended through the engine's own store; the instant each frame is broadcast (in-process receiver as clock) a fresh subscriber opens GET /threads/{id}/events on the real router; every subscriber must receive every frame up to the largest seq it saw, once, in order. non-trivial = a frame of >= 512 KiB; distinct by case hash",
